@@ -59,6 +59,13 @@ type c09State struct {
 // c09Final: exponents handed out earlier are still the numbers they were, and no two callers
 // were given the same object.
 func c09Final(w *World) {
+	hv, _ := w.ext["c09_heldvals"].([]heldVal)
+	for _, h := range hv {
+		if !bytes.Equal(h.buf, h.snap) {
+			w.violate("returned_value_changed_later", "dh", "the %s returned at step %d changed after later DH operations (the library kept a reference to memory it handed out)", h.what, h.step)
+			break
+		}
+	}
 	st := c09st(w)
 	for i, h := range st.held {
 		if h.obj.Cmp(h.snap) != 0 {
@@ -230,8 +237,22 @@ func leadingZeros(b []byte) int {
 	return n
 }
 
+type heldVal struct {
+	buf  []byte
+	snap []byte
+	what string
+	step int
+}
+
 func c09CheckValue(w *World, g *ref.Group, got, want []byte, oracle, what string) {
 	w.ext["c09_modexp"] = true
+	if len(got) > 0 {
+		// the caller keeps the returned octet string; it must still hold this value at the end of the run
+		hv, _ := w.ext["c09_heldvals"].([]heldVal)
+		if len(hv) < 64 {
+			w.ext["c09_heldvals"] = append(hv, heldVal{got, clone(got), what, w.step})
+		}
+	}
 	switch {
 	case len(got) != g.Len:
 		w.violate(oracle+"_length", fmt.Sprintf("group%d", g.ID), "%s has %d octets, the modulus has %d (leading zeros must be preserved)", what, len(got), g.Len)
